@@ -119,8 +119,21 @@ def _execute(mod: Any, plan: dict[str, Any]) -> dict[str, Any]:
         import warnings
 
         warnings.simplefilter("error")
+    if plan.get("_decimal_context") and mod.PROP != "C20":
+        # process state set by the application: its own decimal arithmetic runs at low precision
+        # (money / display code).  The decimal context is per thread: threads started from now on
+        # copy DefaultContext; the thread that loads charts keeps the default one in C11 (the
+        # application changed the setting AFTER it had loaded the chart it now queries)
+        import decimal
+
+        decimal.DefaultContext.prec = 5
+        decimal.DefaultContext.rounding = decimal.ROUND_DOWN
+        if mod.PROP != "C11":
+            decimal.setcontext(decimal.DefaultContext.copy())
     try:
         res = mod.execute(plan)
+        if plan.get("_decimal_context"):
+            res["knobs"] = {**(res.get("knobs") or {}), "low_precision_decimal_context": 1}
         if plan.get("_warnings_error"):
             res["knobs"] = {**(res.get("knobs") or {}), "warnings_as_errors": 1}
         if plan.get("_debug_logging"):
@@ -138,6 +151,8 @@ def _run_seed(mod: Any, seed: int, tier: str, index: int) -> dict[str, Any]:
         plan["_debug_logging"] = True
     if index % 11 == 5:
         plan["_warnings_error"] = True
+    if index % 13 == 7:
+        plan["_decimal_context"] = True
     res = _execute(mod, plan)
     res["plan_digest"] = rng.digest(plan)
     if res.get("violations"):
